@@ -124,6 +124,7 @@ func (d *director) end(quiescentIfDone bool) {
 	go func() { d.wg.Wait(); close(all) }()
 	q := d.s.finish(all)
 	d.s.em.ev("EndScenario", "quiescent", q && quiescentIfDone)
+	d.s.cleanup()
 	d.s.res.Executed++
 	d.s.res.Count("scenarios_directed", 1)
 }
